@@ -1,5 +1,6 @@
 """Rules on the dynamic solvers (src/dynamics) shared by C08 and C09."""
 from ..core import (
+    is_try_residual,
     Site,
     callee_of,
     callee_is,
@@ -59,7 +60,7 @@ def ret_sources(prog, body, _seen=None):
         elif o.kind == "call":
             c = o.data
             nm = strip_generics(callee_name(c) or "")
-            if nm.endswith("FromResidual::from_residual"):
+            if is_try_residual(c):
                 own.add("?")
                 continue
             tgt = prog.body_for_callee(c, body) if c.get("decl") != "<indirect>" else None
